@@ -305,6 +305,7 @@ TYPES = types()
 
 def setup(ctx):
     gcustom.ensure_registered()
+    ctx.count("refused_registrations_before_the_workload", gcustom.refused_registrations())
 
 
 def wl_builtin(ctx, rng, i):
